@@ -61,7 +61,23 @@ func (p Polygon) op(p2 Polygonal, op polyclip.Op) Polygon {
 	for _, pp2x := range p2.Polygons() {
 		pp2 = append(pp2, pp2x.toPolyClip()...)
 	}
-	return polyClipToPolygon(pp.Construct(op, pp2))
+	return polyClipToPolygon(pp.Construct(trivialXOr(pp, pp2, op), pp2))
+}
+
+// trivialXOr returns the operation to hand to the clipper for op. When one
+// operand is empty or the bounding boxes of the operands do not overlap, the
+// clipper returns a trivial result without sweeping, and for XOR that
+// trivial result is empty. The operands cannot overlap in that case, so their
+// symmetric difference is their union, which the clipper does handle.
+func trivialXOr(subject, clipping polyclip.Polygon, op polyclip.Op) polyclip.Op {
+	if op != polyclip.XOR {
+		return op
+	}
+	if len(subject) == 0 || len(clipping) == 0 ||
+		!subject.BoundingBox().Overlaps(clipping.BoundingBox()) {
+		return polyclip.UNION
+	}
+	return op
 }
 
 func (p Polygon) toPolyClip() polyclip.Polygon {
